@@ -616,7 +616,8 @@ C20Case(P, k, c, ex, nest) ==
 (***************************************************************************)
 (* C18: document-level shapes.                                             *)
 (***************************************************************************)
-C18Shapes == {"same_named_nested", "multi_service", "imported_msgs", "path_and_query", "headers", "same_name_other_location", "date_examples"}
+C18Shapes == {"same_named_nested", "multi_service", "imported_msgs", "path_and_query", "headers", "same_name_other_location", "date_examples",
+              "multi_service_shared_annotated", "two_files_shared_annotated"}
 C18Case(P, sh) ==
   LET do(n, in, out, parts, verb) == Method(n, in, out, TRUE, parts, verb)
   IN CASE sh = "same_named_nested" ->
@@ -636,6 +637,28 @@ C18Case(P, sh) ==
                                     <<do("Other", FN(P, "In"), FN(P, "Child"), Parts(TRUE, <<Lit("o")>>, FALSE), "POST"),
                                       do("Third", FN(P, "Child"), FN(P, "Out"), Parts(TRUE, <<Lit("t")>>, FALSE), "PUT")>>)>>,
                           <<In(P), Out(P), Child(P)>>, <<>>)>>)
+       \* messages whose schema needs helper components (variants of a flattened discriminated oneof, the
+       \* value list of a map-value unwrap, a flattened child) reached from SEVERAL services of one run:
+       \* each document must be complete on its own
+       [] sh \in {"multi_service_shared_annotated", "two_files_shared_annotated"} ->
+            LET ev == MsgO("Ev", FN(P, "Ev"), <<F("k", "k", 1, "string", "one"), InOneof(FRef("a", "a", 2, "message", "one", FN(P, "Child")), "o"),
+                                               InOneof(FRef("b", "b", 3, "message", "one", FN(P, "Child2")), "o")>>, <<Oneof("o", TRUE, "type", TRUE)>>)
+                en == MsgO("En", FN(P, "En"), <<InOneof(FRef("a", "a", 1, "message", "one", FN(P, "Child")), "o"),
+                                               InOneof(Ann(FRef("b", "b", 2, "message", "one", FN(P, "Child2")), "oneofValue", "bee"), "o")>>, <<Oneof("o", TRUE, "kind", FALSE)>>)
+                fl == Msg("Fl", FN(P, "Fl"), <<F("x", "x", 1, "string", "one"), Ann(Ann(FRef("c", "c", 2, "message", "one", FN(P, "Child")), "flatten", TRUE), "prefix", "c_")>>)
+                li == Msg("Li", FN(P, "Li"), <<Ann(FRef("items", "items", 1, "message", "rep", FN(P, "Child")), "unwrap", TRUE)>>)
+                hold == Msg("Hold", FN(P, "Hold"), <<FRef("ev", "ev", 1, "message", "one", FN(P, "Ev")), FRef("en", "en", 2, "message", "one", FN(P, "En")),
+                                                    FRef("fl", "fl", 3, "message", "one", FN(P, "Fl")), FMap("by", "by", 4, "string", "message", FN(P, "Li"))>>)
+                s1 == Svc(P, <<do("Do", FN(P, "Hold"), FN(P, "Ev"), Parts(TRUE, <<Lit("do")>>, FALSE), "POST")>>)
+                s2 == Service("Second", TRUE, Parts(TRUE, <<Lit("second")>>, FALSE),
+                              <<do("Other", FN(P, "Ev"), FN(P, "Hold"), Parts(TRUE, <<Lit("o")>>, FALSE), "POST"),
+                                do("Third", FN(P, "Fl"), FN(P, "En"), Parts(TRUE, <<Lit("t")>>, FALSE), "PUT")>>)
+                s3 == Service("Third", TRUE, Parts(TRUE, <<Lit("third")>>, FALSE), <<do("Again", FN(P, "Hold"), FN(P, "Hold"), Parts(TRUE, <<Lit("g")>>, FALSE), "POST")>>)
+            IN IF sh = "multi_service_shared_annotated"
+               THEN Schema(<<File(P \o "/svc.proto", Pkg(P), GoPkg(P), TRUE, <<>>, <<s1, s2, s3>>, <<Child(P), Child2(P), ev, en, fl, li, hold>>, <<>>)>>)
+               ELSE Schema(<<File(P \o "/types.proto", Pkg(P), GoPkg(P), TRUE, <<>>, <<>>, <<Child(P), Child2(P), ev, en, fl, li, hold>>, <<>>),
+                             File(P \o "/svc.proto", Pkg(P), GoPkg(P), TRUE, <<P \o "/types.proto">>, <<s1>>, <<>>, <<>>),
+                             File(P \o "/more.proto", Pkg(P), GoPkg(P), TRUE, <<P \o "/types.proto">>, <<s2, s3>>, <<>>, <<>>)>>)
        [] sh = "imported_msgs" ->
             Schema(<<File(P \o "/types.proto", Pkg(P), GoPkg(P), FALSE, <<>>, <<>>, <<Child(P), Child2(P)>>, <<EnumE>>),
                      File(P \o "/svc.proto", Pkg(P), GoPkg(P), TRUE, <<P \o "/types.proto">>,
